@@ -93,7 +93,7 @@ func init() {
 	runner.Register(&runner.Prop{
 		ID: "C10",
 		Rule: "quick: 6 repo files + 400 generated movies (3 240 tool runs), thorough: + 20 000 generated movies (160 040 tool runs). One case = one input file x 8 runs of the built binary bin/tools/mp4ff-crop -d <ms> in out (files in the worker's scratch directory). Inputs: the repo's progressive test files, then generated movies (gen/prog.RandomMovie, own serializer, real avc1/hvc1/mp4a sample entries): 1..4 tracks (0..2 video with stss/GOPs, 0..3 audio), " +
-			"timescales that differ between tracks, with/without ctts (v0/v1), sdtp, edts/elst, stss; stco or co64; chunking from one chunk per sample to one chunk per track with 1..3 sample-description ids and non-maximal runs; sequential, round-robin, by-time or shuffled interleaving; junk gaps; mdat before or after moov; compact or 64-bit mdat header; every 8th generated movie (co64 everywhere, 64-bit mdat header) is written as a sparse file of more than 4 GiB with a hole of about 2^32 bytes inside the mdat payload in front of a PRNG-chosen chunk, so that chunk offsets on both sides of 2^32 occur (the oracle keeps reading the compact twin: samples, times and bytes are the same); " +
+			"timescales that differ between tracks, with/without ctts (v0/v1), sdtp, edts/elst, stss; a fifth of the tracks with zero-size samples, a quarter of the video tracks starting inside a GOP (first sync sample is sample 2 or 3); stco or co64; chunking from one chunk per sample to one chunk per track with 1..3 sample-description ids and non-maximal runs; sequential, round-robin, by-time or shuffled interleaving; junk gaps; mdat before or after moov; compact or 64-bit mdat header; every 8th generated movie (co64 everywhere, 64-bit mdat header) is written as a sparse file of more than 4 GiB with a hole of about 2^32 bytes inside the mdat payload in front of a PRNG-chosen chunk, so that chunk offsets on both sides of 2^32 occur (the oracle keeps reading the compact twin: samples, times and bytes are the same); " +
 			"35% adversarial movies (tiny timescales, random per-sample durations) where tick rounding matters; every 8th generated movie is a carry probe: a video reference track with time scale c in {4e9, 3e9, 2^32-1} and a sync sample at decode time T = ceil((k*2^64-(c-1))/t) for k in 1..3, audio tracks with time scale t in {3e9, 2^31, 4e9} < c-1, so that T*t lies in the last c-1 values below k*2^64 and the rounded-up conversion of the end time carries out of a 64-bit word. Durations per file: 1 ms, three sample boundaries of the reference track -1/0/+1 ms, one random inside, total-1 ms, total, total+1000 ms. " +
 			"Oracle only for exit status 0: the output tiles (reference walker), decodes (mp4.DecodeFile) and its tables are consistent (reference expansion); per track the output samples equal the first k input samples (payload bytes, duration, composition offset, sync, sdtp byte, sample-description id) " +
 			"with k = number of samples of that track whose decode time/timescale < endTime and endTime = start of the first sync sample of the reference track (first vide, else first soun track) at or after the requested duration, all in exact integer cross-multiplication; chunks lie inside the single new mdat, do not overlap and fill it exactly; mvhd/tkhd/mdhd/elst durations <= the input's. " +
@@ -272,7 +272,7 @@ func run(c *runner.Ctx, idx int) {
 	} else {
 		huge = (idx-len(corpus))%8 == 3
 		carry := (idx-len(corpus))%8 == 5
-		gen = prog.RandomMovie(c.Rand, prog.MovieOptions{Entries: entries, MultiDesc: true, Huge: huge, CarryProbe: carry})
+		gen = prog.RandomMovie(c.Rand, prog.MovieOptions{Entries: entries, MultiDesc: true, Huge: huge, CarryProbe: carry, ZeroSizes: true, LateSync: true})
 		if carry {
 			c.Count("carry_probe_movies", 1)
 		}
@@ -683,7 +683,8 @@ func (k *check) oracle() bool {
 		if !bad {
 			sort.Slice(chunkRanges, func(i, j int) bool { return chunkRanges[i].a < chunkRanges[j].a })
 			for i := 1; i < len(chunkRanges); i++ {
-				if chunkRanges[i].a < chunkRanges[i-1].b {
+				// a chunk of zero-size samples is an empty range: it overlaps nothing wherever it sits
+				if chunkRanges[i].a < chunkRanges[i-1].b && chunkRanges[i].a != chunkRanges[i].b && chunkRanges[i-1].a != chunkRanges[i-1].b {
 					k.viol("mdat/chunks-overlap", fmt.Sprintf("chunks [%d,%d) and [%d,%d) overlap", chunkRanges[i-1].a, chunkRanges[i-1].b, chunkRanges[i].a, chunkRanges[i].b), nil)
 					break
 				}
